@@ -497,11 +497,20 @@ func (h *hist) refresh() {
 		rec, _ := h.w.Store.RefreshRecord(t.s)
 		storedBefore = rec.Scopes
 	}
-	resp := w.Token(h.router, form, cr.auth)
+	// --- where the parameters travel: form body, URL query, or both ---
+	pl := drawPlacement(r, follow != nil)
+	query, body, hook := pl.split(form, cr.auth)
+	path := "/oauth/token"
+	if len(query) > 0 {
+		path += "?" + query.Encode()
+	}
+	hreq := w.NewRequest("POST", path, body)
+	hook(hreq)
+	resp := w.Do(h.router, hreq)
 	journal := h.w.Store.JournalSince(resp.SeqStart)
 	h.run.Eval()
 
-	lit := map[string]string{"form": form.Encode(), "auth": cr.auth.Kind, "auth_id": cr.auth.ID, "auth_secret": cr.auth.Secret, "refresh_enabled_at_provider": fmt.Sprint(enabled)}
+	lit := map[string]string{"method": "POST", "query": query.Encode(), "body": body.Encode(), "placement": pl.String(), "auth": cr.auth.Kind, "auth_id": cr.auth.ID, "auth_secret": cr.auth.Secret, "refresh_enabled_at_provider": fmt.Sprint(enabled)}
 	if cr.auth.Assertion != "" {
 		lit["auth_assertion"] = cr.auth.Assertion
 	}
@@ -531,6 +540,10 @@ func (h *hist) refresh() {
 	h.run.Count("token_kind", tokKind)
 	h.run.Count("scope_kind", scopeKind)
 	h.run.Count("cred_kind", cr.kind)
+	h.run.Count("placement_grant_type", pl.gt)
+	h.run.Count("placement_refresh_token", pl.rt)
+	h.run.Count("placement_scope", pl.sc)
+	h.run.Count("placement_credentials", pl.cred)
 	h.run.Count("presenter", presenter+"/"+rel)
 	h.run.CountN("journal_create_calls", h.rn, int64(len(creates)))
 
@@ -579,8 +592,17 @@ func (h *hist) refresh() {
 	if pos > 3 {
 		pos = 3
 	}
-	h.run.Distinct(fmt.Sprintf("%s|%v|%v|%s|%s|%s|%s|%s|%s|%s|%d|%v", h.rn, h.alias, enabled, ref.ch.via, h.cl[owner].Auth, rel, pauth, cr.kind, tokKind, scopeKind, pos, h.dereg[owner]))
+	h.run.Distinct(fmt.Sprintf("%s|%s/%v|%v|%v|%s|%s|%s|%s|%s|%s|%s|%d|%v", h.rn, pl.gt, pl.restBody(), h.alias, enabled, ref.ch.via, h.cl[owner].Auth, rel, pauth, cr.kind, tokKind, scopeKind, pos, h.dereg[owner]))
 
+	if success && len(creates) > 0 && !slices.ContainsFunc(creates, func(e vstore.Entry) bool { return strings.HasPrefix(e.A, "refresh") }) {
+		// conflicting grant_type members: the request was served by another grant (judged by what the storage was
+		// asked to create) - not a refresh, nothing for this property to judge; the presented token must still be untouched
+		h.run.Count("outcome", "served_by_other_grant:"+pl.gt+":"+creates[0].A)
+		if t != nil && liveBefore && !h.w.Store.RefreshLive(t.s) {
+			h.violated("rotated-by-other-grant", "a request served by another grant ("+creates[0].A+") consumed the refresh token it carried")
+		}
+		return
+	}
 	if !success {
 		// nothing may have been issued
 		if len(creates) > 0 {
@@ -636,7 +658,7 @@ func (h *hist) refresh() {
 			}
 		}
 		// "otherwise invalid_scope is returned": when the scope list is the only thing wrong with a plain request
-		if len(refuse) == 1 && refuse[0] == "scope-not-granted" && wellFormed && cr.plain && presenter == owner && clean {
+		if len(refuse) == 1 && refuse[0] == "scope-not-granted" && wellFormed && cr.plain && presenter == owner && clean && pl.allBody() {
 			if resp.OAuthError() != "invalid_scope" || resp.Status < 400 {
 				h.violated("scope-refusal-not-invalid_scope", fmt.Sprintf("requested scopes %v are not a subset of the granted %v but the answer is %d %q, not invalid_scope", requested, ref.granted, resp.Status, resp.OAuthError()))
 				return
@@ -663,6 +685,10 @@ func (h *hist) refresh() {
 		case "bad-credential":
 			h.run.Observed("refused-unauthenticated:" + h.rn)
 		case "client-not-registered-for-refresh":
+			if pl.gt == "query" {
+				h.run.Observed("grant_type-in-query-only:refused-deregistered:" + h.rn)
+				h.sample("grant_type-in-query-only:deregistered-client")
+			}
 			h.run.Observed("refused-deregistered:" + h.rn)
 			h.sample("deregistered-client")
 		}
@@ -672,8 +698,12 @@ func (h *hist) refresh() {
 	// ---------- nothing in the statement demands refusal ----------
 	if !success {
 		t.failed = true
-		must := cr.plain && presenter == owner && plainScopeKinds[scopeKind] && clean
+		must := cr.plain && presenter == owner && plainScopeKinds[scopeKind] && clean && pl.allBody()
 		if !must {
+			if cr.plain && presenter == owner && plainScopeKinds[scopeKind] && clean {
+				h.run.Count("outcome", "grey_refused:placement-grant_type-"+pl.gt)
+				return
+			}
 			h.run.Count("outcome", "grey_refused:"+greyWhy(cr, presenter == owner, scopeKind, ref))
 			return
 		}
@@ -681,6 +711,11 @@ func (h *hist) refresh() {
 		return
 	}
 	h.run.Count("outcome", "success")
+	h.run.Count("success_placement_grant_type", pl.gt)
+	if pl.gt == "query" && cr.plain && presenter == owner {
+		h.run.Observed("grant_type-in-query-only:success:" + h.rn)
+		h.sample("grant_type-in-query-only:success")
+	}
 	if t.scopeRefused {
 		h.run.Count("outcome", "success_after_scope_refusal_of_same_token")
 		h.run.Observed("scope-refused-then-success:" + h.rn)
@@ -954,13 +989,14 @@ func runHistory(run *ev.Run, caseIdx int, router int) {
 
 func main() {
 	run := ev.Start("C07", "exploration")
-	run.SetRule("random histories (8-31 ops) on a fresh world per history and router: original grants (code exchange / device flow with offline_access, 6 scope sets, 2 users, per-chain audience and auth_time) for clients {web, web2(JWT access tokens) basic; post; native public+PKCE; jwt private_key_jwt; dev basic device; devpub public device(JWT)}, then refresh requests presenter {owner, other registered client, svc without the grant, unknown client} x credential {ok, wrong secret/key, none, other method, superfluous secret, valid credential + owner's client_id} x token {current, rotated-away, expired, unknown: garbage/near-miss/access token/missing/suffix} x scope list {absent, empty, equal, permuted, subset, subset with duplicate, superset head/tail, regrow of a narrowed-away scope, disjoint, case variant, affix variant, malformed spacing} x storage {the RefreshTokenRequest is a copy; it aliases the stored token (vstore.AliasRefresh, 1/3 of histories)} x provider refresh support {on, off (same storage), off for the whole history} x follow-up {70% of scope-only refusals are followed by a plain request of the owner with the same token} x client re-registered without the refresh grant; every refresh request is one evaluation; distinct = distinct vectors (router, aliasing storage, enabled, grant kind, owner auth method, own/foreign, presenter auth method, credential kind, token kind, scope kind, chain position 0..3+, owner deregistered)")
+	run.SetRule("random histories (8-31 ops) on a fresh world per history and router: original grants (code exchange / device flow with offline_access, 6 scope sets, 2 users, per-chain audience and auth_time) for clients {web, web2(JWT access tokens) basic; post; native public+PKCE; jwt private_key_jwt; dev basic device; devpub public device(JWT)}, then refresh requests presenter {owner, other registered client, svc without the grant, unknown client} x credential {ok, wrong secret/key, none, other method, superfluous secret, valid credential + owner's client_id} x token {current, rotated-away, expired, unknown: garbage/near-miss/access token/missing/suffix} x scope list {absent, empty, equal, permuted, subset, subset with duplicate, superset head/tail, regrow of a narrowed-away scope, disjoint, case variant, affix variant, malformed spacing} x storage {the RefreshTokenRequest is a copy; it aliases the stored token (vstore.AliasRefresh, 1/3 of histories)} x provider refresh support {on, off (same storage), off for the whole history} x parameter placement {grant_type, refresh_token, scope, client credentials each in the form body, in the URL query only, or in both; grant_type also conflicting: query says refresh_token while the body names authorization_code / client_credentials, and vice versa; 55% of requests are all-body} x follow-up {70% of scope-only refusals are followed by a plain request of the owner with the same token} x client re-registered without the refresh grant; every refresh request is one evaluation; distinct = distinct vectors (router, grant_type placement / all other parameters in the body, aliasing storage, enabled, grant kind, owner auth method, own/foreign, presenter auth method, credential kind, token kind, scope kind, chain position 0..3+, owner deregistered)")
 	run.Assume(
 		"vstore policy: refresh tokens rotate (CreateAccessAndRefreshTokens kills the presented token), TokenRequestByRefreshToken fails for unknown, rotated and expired tokens, and the new refresh token records the scopes of the token request it was created from — 'granted' in the chain condition is that record",
 		"after a refused request presenting a live token, later success for that token is grey (burning on failure would be legal); after a replay of a dead token of a chain, later success anywhere in the chain is grey (revoking the family would be legal)",
 		"success is demanded only for the token's own, plainly configured client with its one registered credential and an absent / equal / permuted / subset scope list; duplicates, an empty scope parameter, malformed spacing, other-method or superfluous credentials are grey for success and strict for refusal",
 		"a public client counts as identified when its client_id is named anywhere in the request",
 		"original grants are taken as the storage recorded them (their correctness is C04/C06/C16)",
+		"where a parameter travels (form body, URL query, both) never changes who may refresh: the refusal side of the model is placement-blind; success is demanded only for all-body requests; a request with conflicting grant_type members is judged by what was served (a success whose journal shows no refresh token request was served by another grant and is not judged)",
 		"in one third of the histories the storage hands out a RefreshTokenRequest that aliases the stored token (SetCurrentScopes writes through, as in the repository's example storage); after every refused request the scopes the storage holds for the presented token are compared with those before it: widened -> violation, only narrowed -> grey")
 	n := run.N(2000, 40000)
 	if rc := run.ReplayCase(); rc >= 0 {
@@ -970,7 +1006,7 @@ func main() {
 	}
 	var mand []string
 	for _, rn := range opdrv.RouterNames {
-		for _, m := range []string{"success", "success-public", "success-private_key_jwt", "refused-foreign-authenticated", "refused-unauthenticated", "refused-invalid_scope", "refused-regrow", "refused-replay", "refused-disabled", "refused-deregistered", "chain>=4", "narrowed-twice", "history-with-refresh-disabled", "scope-refused-then-success", "aliasing-storage:scope-refused-then-success"} {
+		for _, m := range []string{"success", "success-public", "success-private_key_jwt", "refused-foreign-authenticated", "refused-unauthenticated", "refused-invalid_scope", "refused-regrow", "refused-replay", "refused-disabled", "refused-deregistered", "chain>=4", "narrowed-twice", "history-with-refresh-disabled", "scope-refused-then-success", "aliasing-storage:scope-refused-then-success", "grant_type-in-query-only:success", "grant_type-in-query-only:refused-deregistered"} {
 			mand = append(mand, m+":"+rn)
 		}
 	}
@@ -980,4 +1016,66 @@ func main() {
 		runHistory(run, i, 1)
 	})
 	run.Finish()
+}
+
+// ---------- parameter placement ----------
+
+// placement says where each parameter group of the token request travels: "body", "query" (URL query only),
+// "both" (equal values in both); grant_type additionally "conflict-query-refresh" (the query says refresh_token,
+// the body names another grant) and "conflict-body-refresh" (the reverse).
+type placement struct {
+	gt, rt, sc, cred string
+	other            string // the other grant of a conflicting grant_type
+}
+
+func (p placement) String() string {
+	return "grant_type=" + p.gt + ",refresh_token=" + p.rt + ",scope=" + p.sc + ",credentials=" + p.cred
+}
+func (p placement) allBody() bool  { return p.gt == "body" && p.restBody() }
+func (p placement) restBody() bool { return p.rt == "body" && p.sc == "body" && p.cred == "body" }
+
+func drawPlacement(r *rand.Rand, plainOnly bool) placement {
+	p := placement{gt: "body", rt: "body", sc: "body", cred: "body"}
+	if plainOnly || r.IntN(100) < 55 {
+		return p
+	}
+	three := func() string { return pick(r, "body", "body", "query", "query", "both") }
+	p.gt = pick(r, "body", "body", "query", "query", "query", "query", "both", "both", "conflict-query-refresh", "conflict-body-refresh")
+	p.other = pick(r, "authorization_code", "authorization_code", "client_credentials")
+	p.rt, p.sc, p.cred = three(), three(), three()
+	return p
+}
+
+// split distributes the form (with the credentials applied) over URL query and body.
+func (p placement) split(form url.Values, auth opdrv.ClientAuth) (query, body url.Values, hook func(*http.Request)) {
+	f := url.Values{}
+	for k, v := range form {
+		f[k] = slices.Clone(v)
+	}
+	hook = auth.Apply(f)
+	query, body = url.Values{}, url.Values{}
+	for k, v := range f {
+		where := p.cred
+		switch k {
+		case "grant_type":
+			where = p.gt
+		case "refresh_token":
+			where = p.rt
+		case "scope":
+			where = p.sc
+		}
+		switch where {
+		case "body":
+			body[k] = v
+		case "query":
+			query[k] = v
+		case "both":
+			body[k], query[k] = v, slices.Clone(v)
+		case "conflict-query-refresh":
+			query[k], body[k] = v, []string{p.other}
+		case "conflict-body-refresh":
+			body[k], query[k] = v, []string{p.other}
+		}
+	}
+	return query, body, hook
 }
